@@ -214,6 +214,8 @@ def run(seed, n_runs, shim, roots, texts, goods):
         for r, (mods, counters, err), i in zip(runs, results, range(n_runs)):
             stats["rustc_runs"] += 1
             for k, v in counters.items():
+                if k == "clock":
+                    continue  # rustc reads the clock for its own self-profiling a timing-dependent number of times
                 stats["shim_calls_in_rustc"][k] = stats["shim_calls_in_rustc"].get(k, 0) + v
             if mods is None:
                 # rustc refused the crate: only a violation if every module is accepted alone
